@@ -20,13 +20,28 @@ UNITS = [
     U("new_null", "h_new_null", None, harness="newfree.c", functions=[]),
     U("lemma_used_plus_free", "h_lemma_used_plus_free", None, functions=[]),
 ]
+# the ring relies on the C07 contract of PShm (one lock per name, creator resets it, openers share it); the C07 units that
+# establish that contract on the real pshm-posix.c / psemaphore-posix.c run here too, so that a change in those files is
+# reported under this property as well (the region of C07's own known findings is excluded here and decided under C07)
+import os as _os, importlib.util as _ilu
+def _c07(ids):
+    p = _os.path.join(_os.path.dirname(_os.path.abspath(__file__)), "..", "C07", "units.py")
+    sp = _ilu.spec_from_file_location("c07_for_c08", p); m = _ilu.module_from_spec(sp); sp.loader.exec_module(m)
+    out = []
+    for u in m.UNITS:
+        if u["id"] in ids:
+            v = dict(u); v["id"] = "c07_" + u["id"]; v["harness"] = "../C07/" + u["harness"]
+            v["defines"] = list(v.get("defines", [])) + ["KF_EXCLUDE_C07_ZERO_SIZE_LEFTOVER"]
+            out.append(v)
+    return out
+UNITS += _c07(["new", "lock_unlock", "free"])
 
 TECHNIQUE = "CBMC function contracts (DFCC) on the real pshmbuffer.c; monitor-rule lock model; bulk copies checked through a memcpy call log so that byte placement is proved for symbolic capacity"
 LEVEL_TEXT = ("Contracts on every function of pshmbuffer.c: space arithmetic for every modulus/positions; write/read: return value, new positions, "
               "placement of every byte (ghost index = forall) via the logged memcpy calls, no overwrite of unread bytes, all segment accesses inside exactly one "
               "lock/unlock bracket (monitor rule: header havocked at lock and after unlock), frame = 16 header bytes + ghosts (DFCC assigns check), "
               "for every capacity up to 2^32 (quick) / 2^40 (thorough) bytes, every position and every length; loop-free, no unwinding. "
-              "new/free/take_ownership against the C07 contract of PShm.")
+              "new/free/take_ownership against the C07 contract of PShm; the C07 units new / lock_unlock / free on the real pshm-posix.c and psemaphore-posix.c run under this property as well.")
 LEVEL_NOTE = ("Trusted: memcpy/memset call-log model (bulk copies are recorded, not performed; meaning of a recorded copy is memcpy's C semantics), "
               "monitor-rule soundness, p_shm_* model (proved of the real code in C07), allocator model. Capacity bounded at 2^32/2^40 by solver time and "
               "CBMC's pointer-offset width. Cross-process visibility is the kernel's. Known findings: read count > INT_MAX, open with smaller size.")
